@@ -339,6 +339,26 @@ class _rewrite_captured_vars(ast.NodeTransformer):
         self._ignore_stack.pop()
         return v
 
+    def _visit_comprehension(self, node: Any) -> Any:
+        "The loop variables are local names: never replaced, and they hide captured names"
+        for gen in node.generators:
+            # The iterable is evaluated before the loop variable is bound
+            gen.iter = self.visit(gen.iter)
+            self._ignore_stack.append(
+                [n.id for n in ast.walk(gen.target) if isinstance(n, ast.Name)]
+            )
+            gen.ifs = [self.visit(i) for i in gen.ifs]
+        node.elt = self.visit(node.elt)
+        for _ in node.generators:
+            self._ignore_stack.pop()
+        return node
+
+    def visit_ListComp(self, node: ast.ListComp) -> Any:
+        return self._visit_comprehension(node)
+
+    def visit_GeneratorExp(self, node: ast.GeneratorExp) -> Any:
+        return self._visit_comprehension(node)
+
     def visit_Call(self, node: ast.Call) -> Any:
         "If the rewritten call turns into an actual function, then we have to bail,"
         old_func = node.func
